@@ -17,10 +17,12 @@ EXTENDS Integers, Sequences, FiniteSets
 CONSTANTS Cap,          \* pipe capacity
           Payload,      \* number of stdin bytes the parent has to deliver (0 = empty string given)
           Prog,         \* the child's program: sequence of instruction records
-          Variant,      \* "run_process" | "communicate"
+          Variant,      \* "run_process" | "communicate" | "abandon" (a Subprocess object destroyed right after creation)
           Drain,        \* TRUE: the parent drains the pipes after the child has exited (the code); FALSE: legacy
           CloseAll,     \* TRUE: pipe ends still open at return are closed (the code); FALSE: legacy (descriptor leak)
           Timeout,      \* TRUE: run_process was given a deadline (timeout_usecs > 0)
+          DtorSig,      \* signal ~Subprocess sends to a child that is still running: "KILL" (the code); "TERM": regression
+                        \* model - a child that ignores SIGTERM is then waited for for ever
           Escalate      \* TRUE: a child that survives SIGTERM gets SIGKILL at the second deadline (the code);
                         \* FALSE: regression model - the termination request is only repeated
 
@@ -112,7 +114,7 @@ Child == ChildWrite \/ ChildRead \/ ChildCat \/ ChildClose \/ ChildExit \/ Child
 
 (* ------------------------------------------------------------------ kernel: timer and signals *)
 TimerFire ==             \* the deadline passes (at any moment while it is armed)
-  /\ tm.timer = "armed" /\ ppc \notin {"done", "threw"}
+  /\ tm.timer = "armed" /\ ppc \notin {"done", "threw", "gone"}
   /\ tm' = [tm EXCEPT !.timer = "expired"]
   /\ UNCHANGED <<pin, pout, perr, cfd, pfd, cpc, cprog, chold, cgot, cwrote, cstate, code, ppc, ready, sent, acc, status, threw>>
 SignalDeliver ==         \* a pending signal reaches the child: SIGKILL always ends it, SIGTERM unless ignored
@@ -135,8 +137,8 @@ ReadySet == {s \in Serviced : pfd[s] /\ (Buf(s) # <<>> \/ ~cfd[s])}
 
 P_Start ==               \* stdin is closed at once when there is nothing to send
   /\ ppc = "start"
-  /\ pfd' = IF Payload = 0 THEN [pfd EXCEPT !.in = FALSE] ELSE pfd
-  /\ ppc' = "wait"
+  /\ pfd' = IF Payload = 0 /\ Variant # "abandon" THEN [pfd EXCEPT !.in = FALSE] ELSE pfd
+  /\ ppc' = IF Variant = "abandon" THEN "kill" ELSE "wait"      \* abandon: straight into the destructor
   /\ UNCHANGED <<pin, pout, perr, cstate, ready, sent, acc, status, threw>> /\ PUnch
 
 P_Wait ==                \* waitpid(WNOHANG)
@@ -205,21 +207,28 @@ P_Close ==               \* pipe ends still open are closed on every path out of
   /\ ppc' = IF threw THEN "kill" ELSE "done"
   /\ UNCHANGED <<pin, pout, perr, cstate, ready, sent, acc, status, threw>> /\ PUnch
 
-P_KillReap ==            \* exception path: ~Subprocess kills and reaps the child
+(* ~Subprocess (exception path of run_process, or an abandoned object): waitpid(WNOHANG); a child that is still
+   running is sent DtorSig and then waited for WITHOUT a time limit *)
+P_DtorTry ==
   /\ ppc = "kill"
-  /\ cstate' = "reaped" /\ cfd' = [in |-> FALSE, out |-> FALSE, err |-> FALSE]
-  /\ ppc' = "threw"
-  /\ UNCHANGED <<pin, pout, perr, pfd, cpc, cprog, chold, cgot, cwrote, code, ready, sent, acc, status, threw, tm>>
+  /\ IF cstate = "zombie"
+       THEN cstate' = "reaped" /\ tm' = tm /\ ppc' = (IF threw THEN "threw" ELSE "gone")
+       ELSE cstate' = cstate /\ tm' = [tm EXCEPT !.sig = IF tm.sig = "KILL" THEN "KILL" ELSE DtorSig] /\ ppc' = "dtorwait"
+  /\ UNCHANGED <<pin, pout, perr, cfd, pfd, cpc, cprog, chold, cgot, cwrote, code, ready, sent, acc, status, threw>>
+P_DtorWait ==            \* blocking waitpid
+  /\ ppc = "dtorwait" /\ cstate = "zombie"
+  /\ cstate' = "reaped" /\ ppc' = (IF threw THEN "threw" ELSE "gone")
+  /\ UNCHANGED <<pin, pout, perr, cfd, pfd, cpc, cprog, chold, cgot, cwrote, code, ready, sent, acc, status, threw, tm>>
 
 Parent == P_Start \/ P_Wait \/ P_Poll \/ (\E s \in Streams : P_HandleRead(s)) \/ P_HandleWrite \/ P_HandleDone
-          \/ P_Deadline \/ P_Drain \/ P_Close \/ P_KillReap
+          \/ P_Deadline \/ P_Drain \/ P_Close \/ P_DtorTry \/ P_DtorWait
 
 Next == Child \/ Parent \/ Kernel
 Spec == Init /\ [][Next]_vars
 FairSpec == Spec /\ WF_vars(Child) /\ WF_vars(Parent) /\ WF_vars(TimerFire) /\ WF_vars(SignalDeliver)
 
 (* ------------------------------------------------------------------ the property *)
-Finished == ppc \in {"done", "threw"}
+Finished == ppc \in {"done", "threw", "gone"}
 OutputComplete == ppc = "done" =>
                     /\ acc.out = cwrote.out
                     /\ (Variant = "run_process" => acc.err = cwrote.err)
